@@ -18,6 +18,7 @@ import (
 	"fmt"
 	"net/http"
 	"net/http/httptest"
+	"sort"
 	"strings"
 	"sync"
 	"time"
@@ -87,12 +88,19 @@ func (s *script) lookup(n int, q request) answer {
 	return answer{Kind: aErr, Code: 404}
 }
 
+type look struct {
+	Group  string
+	Cached bool
+	Set    []string
+}
+
 type op struct {
-	Kind   int // 0 ListMemberships, 1 CheckMemberships
+	Kind   int // 0 ListMemberships, 1 CheckMemberships, 2 GoogleProvider.ValidateGroupMembership, 3 GoogleProvider.PopulateMembers
 	Group  string
 	Depth  int
 	Groups []string
 	Email  string
+	Looks  []look // kind 2: what the group cache says for each asked group (an oracle for the model)
 }
 
 const (
@@ -167,16 +175,41 @@ func (s script) coq() string {
 	return "(mkscript " + c.List(fs) + " " + c.List(ts) + ")"
 }
 func (o op) coq() string {
-	if o.Kind == 0 {
+	switch o.Kind {
+	case 0:
 		return "(OList " + c.Str(o.Group) + " " + c.Nat(o.Depth) + ")"
+	case 1:
+		return "(OCheck " + c.Strs(o.Groups) + " " + c.Str(o.Email) + ")"
+	case 2:
+		ls := make([]string, len(o.Looks))
+		for i, l := range o.Looks {
+			set := "None"
+			if l.Cached {
+				set = "(Some " + c.Strs(l.Set) + ")"
+			}
+			ls[i] = c.Pair(c.Str(l.Group), set)
+		}
+		return "(OValidate " + c.List(ls) + " " + c.Str(o.Email) + ")"
 	}
-	return "(OCheck " + c.Strs(o.Groups) + " " + c.Str(o.Email) + ")"
+	return "(OPopulate " + c.Str(o.Group) + ")"
 }
 func (o op) short() string {
-	if o.Kind == 0 {
+	switch o.Kind {
+	case 0:
 		return fmt.Sprintf("List(%s,depth %d)", o.Group, o.Depth)
+	case 1:
+		return fmt.Sprintf("Check(%s;%s)", strings.Join(o.Groups, ","), o.Email)
+	case 2:
+		ls := make([]string, len(o.Looks))
+		for i, l := range o.Looks {
+			ls[i] = l.Group
+			if l.Cached {
+				ls[i] += "=cached{" + strings.Join(l.Set, " ") + "}"
+			}
+		}
+		return fmt.Sprintf("Validate(%s;%s)", strings.Join(ls, ","), o.Email)
 	}
-	return fmt.Sprintf("Check(%s;%s)", strings.Join(o.Groups, ","), o.Email)
+	return fmt.Sprintf("Populate(%s)", o.Group)
 }
 func (e event) coq() string {
 	switch e.Kind {
@@ -276,7 +309,9 @@ type world struct {
 	b        *circuit.Breaker
 	clk      *clock.Mock
 	srv      *httptest.Server
-	gs       *providers.GoogleAdminService
+	admin    providers.AdminService    // what List/Check operations are called on
+	gp       *providers.GoogleProvider // provider worlds only
+	broken   string                    // the world could not be built as the binaries build it: an observation, not a harness error
 	mu       sync.Mutex
 	hooks    []hook
 	nreq     int
@@ -328,45 +363,86 @@ func (w *world) take() []hook {
 	return h
 }
 
-func newWorld(p params, sc script) *world {
+// prodRule: the rule NewGoogleProvider installs (google.go:71-80): trip at 3 consecutive failures, reset at 6
+// consecutive successes, 2 half-open slots. Provider worlds use the provider's own breaker, so their cases carry it.
+func prodRule(p params) params {
+	p.Trip, p.Reset, p.Hom = 3, 6, 2
+	return p
+}
+
+func newWorld(p params, sc script, provider bool, cache map[string][]string) *world {
 	w := &world{p: p, sc: sc, clk: clock.NewMock(), arrive: make(chan *arrival, 64), done: make(chan doneMsg, 64)}
 	ruleHook := func(name string, k circuit.Counts) {
 		w.rec(hook{kind: 0, coq: "HRule " + name + " " + countsCoq(k),
 			short: fmt.Sprintf("%s?(%d,%d,%d)", name[1:], k.CurrentRequests, k.ConsecutiveSuccesses, k.ConsecutiveFailures)})
 	}
-	w.b = circuit.NewBreaker(&circuit.Options{
-		HalfOpenConcurrentRequests: int(p.Hom),
-		ShouldTripFunc: func(k circuit.Counts) bool {
-			ruleHook("RTrip", k)
-			return int64(k.ConsecutiveFailures) >= p.Trip
-		},
-		ShouldResetFunc: func(k circuit.Counts) bool {
-			ruleHook("RReset", k)
-			return int64(k.ConsecutiveSuccesses) >= p.Reset
-		},
-		BackoffDurationFunc: func(k circuit.Counts) time.Duration {
-			ruleHook("RBackoff", k)
-			v := p.B0 + p.Bf*int64(k.ConsecutiveFailures) + p.Bs*int64(k.ConsecutiveSuccesses) + p.Bc*int64(k.CurrentRequests)
-			return time.Duration(v) * unit
-		},
-		OnStateChange: func(prev, to circuit.State) {
-			w.rec(hook{kind: 1, to: to, coq: "HState " + stName(prev) + " " + stName(to), short: prev.String() + ">" + to.String()})
-		},
-		OnBackoff: func(d time.Duration, reset time.Time) {
-			dn, rn := int64(d/unit), reset.Sub(time.Unix(0, 0))
-			if d%unit != 0 || rn%unit != 0 {
-				dn, rn = -999999, -999999*unit
-			}
-			w.rec(hook{kind: 2, r: int64(rn / unit), coq: "HBackoff " + c.Z(dn) + " " + c.Z(int64(rn/unit)),
-				short: fmt.Sprintf("backoff(%d,until %d)", dn, int64(rn/unit))})
-		},
-		TestClock: w.clk,
-	})
+	backoff := func(k circuit.Counts) time.Duration {
+		v := p.B0 + p.Bf*int64(k.ConsecutiveFailures) + p.Bs*int64(k.ConsecutiveSuccesses) + p.Bc*int64(k.CurrentRequests)
+		return time.Duration(v) * unit
+	}
+	onState := func(prev, to circuit.State) {
+		w.rec(hook{kind: 1, to: to, coq: "HState " + stName(prev) + " " + stName(to), short: prev.String() + ">" + to.String()})
+	}
+	onBackoff := func(d time.Duration, reset time.Time) {
+		dn, rn := int64(d/unit), reset.Sub(time.Unix(0, 0))
+		if d%unit != 0 || rn%unit != 0 {
+			dn, rn = -999999, -999999*unit
+		}
+		w.rec(hook{kind: 2, r: int64(rn / unit), coq: "HBackoff " + c.Z(dn) + " " + c.Z(int64(rn/unit)),
+			short: fmt.Sprintf("backoff(%d,until %d)", dn, int64(rn/unit))})
+	}
 	w.srv = httptest.NewServer(http.HandlerFunc(w.serve))
 	svc, err := admin.New(w.srv.Client())
 	c.Must(err)
 	svc.BasePath = w.srv.URL + "/"
-	w.gs = providers.VerifC15NewGoogleAdminService(svc, w.b)
+	if !provider {
+		w.b = circuit.NewBreaker(&circuit.Options{
+			HalfOpenConcurrentRequests: int(p.Hom),
+			ShouldTripFunc: func(k circuit.Counts) bool {
+				ruleHook("RTrip", k)
+				return int64(k.ConsecutiveFailures) >= p.Trip
+			},
+			ShouldResetFunc: func(k circuit.Counts) bool {
+				ruleHook("RReset", k)
+				return int64(k.ConsecutiveSuccesses) >= p.Reset
+			},
+			BackoffDurationFunc: func(k circuit.Counts) time.Duration {
+				ruleHook("RBackoff", k)
+				return backoff(k)
+			},
+			OnStateChange: onState,
+			OnBackoff:     onBackoff,
+			TestClock:     w.clk,
+		})
+		w.admin = providers.VerifC15NewGoogleAdminService(svc, w.b)
+		return w
+	}
+	// the provider as the authenticator builds it (internal/auth/options.go -> NewGoogleProvider): its own breaker with
+	// the production rules and its own hooks; the admin service shares that breaker. The group cache is groups.MockCache
+	// answering from a fixed table and never starting refresh loops (those would list groups in the background).
+	gp, err := providers.NewGoogleProvider(&providers.ProviderData{}, "", "", "", "")
+	if err != nil || gp == nil {
+		w.broken = fmt.Sprintf("NewGoogleProvider: %v", err)
+		return w
+	}
+	w.gp = gp
+	w.b = providers.VerifC15WireGoogleProvider(gp, svc)
+	w.b.VerifC15Instrument(w.clk, backoff, ruleHook, onState, onBackoff)
+	gp.GroupsCache = &groups.MockCache{
+		ListMembershipsFunc: func(g string) (groups.MemberSet, bool) {
+			ms, ok := cache[g]
+			if !ok {
+				return nil, false
+			}
+			set := groups.MemberSet{}
+			for _, m := range ms {
+				set[m] = struct{}{}
+			}
+			return set, true
+		},
+		Refreshed: false,
+	}
+	w.admin = gp.AdminService
 	return w
 }
 
@@ -494,15 +570,37 @@ func (w *world) apply(e event) cobs {
 		w.nops++
 		w.live++
 		o := e.Op
+		if w.broken != "" || (o.Kind >= 2 && w.gp == nil) {
+			w.live--
+			return cobs{hooks: w.take(), done: &struct {
+				op  int
+				res result
+			}{opid, result{coq: "(RErr EOther)", short: "WORLD-NOT-BUILT " + w.broken}}}
+		}
 		go func() {
-			var ms []string
-			var err error
-			if o.Kind == 0 {
-				ms, err = w.gs.ListMemberships(o.Group, o.Depth)
-			} else {
-				ms, err = w.gs.CheckMemberships(o.Groups, o.Email)
+			switch o.Kind {
+			case 0:
+				ms, err := w.admin.ListMemberships(o.Group, o.Depth)
+				w.done <- doneMsg{opid, classify(ms, err)}
+			case 1:
+				ms, err := w.admin.CheckMemberships(o.Groups, o.Email)
+				w.done <- doneMsg{opid, classify(ms, err)}
+			case 2:
+				ms, err := w.gp.ValidateGroupMembership(o.Email, o.Groups, "")
+				w.done <- doneMsg{opid, classify(ms, err)}
+			default:
+				set, err := w.gp.PopulateMembers(o.Group)
+				if err != nil {
+					w.done <- doneMsg{opid, classify(nil, err)}
+					return
+				}
+				var ms []string
+				for m := range set {
+					ms = append(ms, m)
+				}
+				sort.Strings(ms) // map order is canonicalised; Coq compares as a set
+				w.done <- doneMsg{opid, result{coq: "(RSet " + c.Strs(ms) + ")", short: "set{" + strings.Join(ms, " ") + "}"}}
 			}
-			w.done <- doneMsg{opid, classify(ms, err)}
 		}()
 		return w.wait(opid)
 	case evAnswer:
@@ -543,12 +641,13 @@ func (w *world) drain() {
 }
 
 type seqResult struct {
-	p       params
-	sc      script
-	evs     []event
-	os      []cobs
-	blocked int
-	origin  string
+	provider bool
+	p        params
+	sc       script
+	evs      []event
+	os       []cobs
+	blocked  int
+	origin   string
 }
 
 func (s seqResult) toCase() c.Case {
@@ -577,6 +676,7 @@ func (s seqResult) toCase() c.Case {
 		s.sc.coq(), c.List(evs), c.List(os), c.Nat(s.blocked))
 	return c.Case{Coq: coq, JSON: map[string]interface{}{
 		"origin": s.origin,
+		"world":  map[bool]string{false: "GoogleAdminService + own breaker", true: "NewGoogleProvider (its breaker, production rule) + MockCache"}[s.provider],
 		"params": map[string]int64{"trip_at_failures": p.Trip, "reset_at_successes": p.Reset, "backoff_base": p.B0,
 			"backoff_per_failure": p.Bf, "backoff_per_success": p.Bs, "backoff_per_current": p.Bc, "half_open_option": p.Hom},
 		"directory":      tbl,
@@ -587,9 +687,12 @@ func (s seqResult) toCase() c.Case {
 	}}
 }
 
-func runScript(p params, sc script, evs []event, origin string) seqResult {
-	w := newWorld(p, sc)
-	res := seqResult{p: p, sc: sc, evs: evs, origin: origin}
+func runScript(p params, sc script, evs []event, origin string, provider bool, cache map[string][]string) seqResult {
+	if provider {
+		p = prodRule(p)
+	}
+	w := newWorld(p, sc, provider, cache)
+	res := seqResult{provider: provider, p: p, sc: sc, evs: evs, origin: origin}
 	for _, e := range evs {
 		res.os = append(res.os, w.apply(e))
 	}
@@ -715,11 +818,57 @@ func genOp(r *c.Rng) op {
 	return op{Kind: 1, Groups: gs, Email: r.Pick(userNames[:4])}
 }
 
+func looksFor(cache map[string][]string, gs []string) []look {
+	ls := make([]look, len(gs))
+	for i, g := range gs {
+		set, ok := cache[g]
+		ls[i] = look{Group: g, Cached: ok, Set: set}
+	}
+	return ls
+}
+
+// provider worlds: mostly the provider's own entry points, sometimes the admin service underneath
+func genProviderOp(r *c.Rng, cache map[string][]string) op {
+	switch x := r.Float64(); {
+	case x < 0.55:
+		n := pickInt(r, 0, 1, 1, 1, 2, 2, 3)
+		var gs []string
+		for i := 0; i < n; i++ {
+			gs = append(gs, r.Pick(groupNames))
+		}
+		return op{Kind: 2, Groups: gs, Email: r.Pick(userNames[:4]), Looks: looksFor(cache, gs)}
+	case x < 0.72:
+		g := r.Pick(groupNames)
+		if r.Chance(0.3) {
+			g = "big"
+		}
+		return op{Kind: 3, Group: g}
+	}
+	return genOp(r)
+}
+
 func runRandom(r *c.Rng, origin string) seqResult {
 	p := genParams(r)
 	sc := genScript(r)
-	w := newWorld(p, sc)
-	res := seqResult{p: p, sc: sc, origin: origin}
+	provider := r.Chance(0.45)
+	cache := map[string][]string{}
+	if provider {
+		p = prodRule(p)
+		if p.B0 < 0 {
+			p.B0 = 1
+		}
+		for _, g := range groupNames {
+			if r.Chance(0.25) {
+				var ms []string
+				for j := r.Intn(4); j > 0; j-- {
+					ms = append(ms, r.Pick(userNames[:4]))
+				}
+				cache[g] = ms
+			}
+		}
+	}
+	w := newWorld(p, sc, provider, cache)
+	res := seqResult{provider: provider, p: p, sc: sc, origin: origin}
 	n := 6 + r.Intn(35)
 	maxLive := 1 + r.Intn(4)
 	for len(res.evs) < n {
@@ -739,7 +888,11 @@ func runRandom(r *c.Rng, origin string) seqResult {
 		}
 		switch {
 		case x < pBegin:
-			e = event{Kind: evBegin, Op: genOp(r)}
+			if provider {
+				e = event{Kind: evBegin, Op: genProviderOp(r, cache)}
+			} else {
+				e = event{Kind: evBegin, Op: genOp(r)}
+			}
 		case x < pBegin+pAnswer:
 			i := 0
 			if np > 0 {
@@ -795,10 +948,41 @@ func has(g, u string, b bool) tableEnt {
 func fails(q request, code int) tableEnt { return tableEnt{q, answer{Kind: aErr, Code: code}} }
 
 type fixed struct {
-	p    params
-	sc   script
-	evs  []event
-	name string
+	p        params
+	sc       script
+	evs      []event
+	name     string
+	provider bool
+	cache    map[string][]string
+}
+
+// provider-level scripts: the real NewGoogleProvider, one-minute back-off
+func providerCorpus() []fixed {
+	prod := params{Trip: 3, Reset: 6, B0: 60, Hom: 2}
+	tbl := []tableEnt{fails(request{1, "down", "u"}, 503), has("ok", "u", true), has("no", "u", false), has("c1", "u", true),
+		page("big", "", "p2", member{"a", 0}, member{"sub", 1}), page("big", "p2", "", member{"b", 0}, member{"a", 0}),
+		page("sub", "", "", users("s1", "a")...)}
+	cache := map[string][]string{"c1": {"u", "v"}, "c2": {"v"}}
+	V := func(email string, gs ...string) op {
+		return op{Kind: 2, Groups: gs, Email: email, Looks: looksFor(cache, gs)}
+	}
+	P := func(g string) op { return op{Kind: 3, Group: g} }
+	return []fixed{
+		// three failing uncached questions trip the circuit; rejected until and AT the deadline; one unit later an uncached
+		// question must reach the directory as the half-open probe; six successes close the circuit again
+		{prod, script{Table: tbl}, []event{B(V("u", "down")), A(0), B(V("u", "down")), A(0), B(V("u", "down")), A(0),
+			B(V("u", "ok")), T(60), B(V("u", "ok")), T(1), B(V("u", "ok")), A(0), B(V("u", "ok", "no")), A(0), A(0),
+			B(V("u", "ok")), A(0), B(V("u", "ok")), A(0), B(V("u", "ok")), A(0), B(V("u", "ok"))}, "provider-probe-after-deadline", true, cache},
+		// the cache decides when every asked group is cached (also while the circuit is open); one uncached group sends
+		// the question for ALL groups to the directory; nothing asked, nothing sent
+		{prod, script{Table: tbl}, []event{B(V("u", "c1", "c2")), B(V("v", "c2", "c1")), B(V("u")), B(V("u", "c1", "ok")), A(0), A(0),
+			B(V("u", "down")), A(0), B(V("u", "down")), A(0), B(V("u", "down")), A(0), B(V("u", "c1", "c2")), B(V("u", "c1", "ok")),
+			T(61), B(V("u", "c2")), B(V("u", "c1", "ok")), A(0), A(0)}, "provider-cache-decides", true, cache},
+		// PopulateMembers (the cache's fill function): a listing four levels deep as a set; rejected while open; probes after the deadline;
+		// concurrent fills and questions share the two half-open slots
+		{prod, script{Table: tbl}, []event{B(P("big")), A(0), A(0), A(0), B(P("missing")), A(0), B(V("u", "down")), A(0), B(V("u", "down")), A(0),
+			B(P("big")), T(61), B(P("big")), B(V("u", "ok")), B(P("sub")), A(0), A(0), A(0), A(0), A(0)}, "provider-populate", true, cache},
+	}
 }
 
 func corpus() []fixed {
@@ -825,33 +1009,33 @@ func corpus() []fixed {
 	return []fixed{
 		// the breaker trips between two pages of one listing: page 2 must be rejected, nothing sent, listing fails with ErrOpenState
 		{google, script{Table: big}, []event{B(L("big", 0)), B(K("u", "down")), A(1), B(K("u", "down")), A(1), B(K("u", "down")), A(1),
-			B(K("u", "ok")), A(0), T(61), B(K("u", "ok")), A(0)}, "trip-between-pages"},
+			B(K("u", "ok")), A(0), T(61), B(K("u", "ok")), A(0)}, "trip-between-pages", false, nil},
 		// ... and between the HasMember requests for two groups of one CheckMemberships
 		{google, script{Table: big}, []event{B(K("u", "ok", "ok", "ok")), B(K("u", "down")), A(1), B(K("u", "down")), A(1), B(K("u", "down")), A(1),
-			A(0), T(61), B(K("u", "ok", "down", "ok")), A(0), A(0), B(K("u", "ok"))}, "trip-between-groups-of-a-check"},
+			A(0), T(61), B(K("u", "ok", "down", "ok")), A(0), A(0), B(K("u", "ok"))}, "trip-between-groups-of-a-check", false, nil},
 		// half-open: page 1 succeeds, page 2 fails: any failure re-opens, the next check is rejected
 		{google, script{Table: bigP2Fails}, []event{B(K("u", "down")), A(0), B(K("u", "down")), A(0), B(K("u", "down")), A(0), T(61),
-			B(L("big", 0)), A(0), A(0), B(K("u", "ok")), T(61), B(K("u", "ok")), A(0)}, "failed-follow-up-page-reopens"},
+			B(L("big", 0)), A(0), A(0), B(K("u", "ok")), T(61), B(K("u", "ok")), A(0)}, "failed-follow-up-page-reopens", false, nil},
 		// half-open with several concurrent listings: cap 2 counts follow-up pages too
 		{google, script{Table: big}, []event{B(K("u", "down")), A(0), B(K("u", "down")), A(0), B(K("u", "down")), A(0), T(61),
-			B(L("big", 0)), B(L("big", 0)), B(L("big", 0)), A(0), A(0), A(0), A(0), B(L("big", 0)), A(0), A(0), B(K("u", "ok")), A(0)}, "half-open-concurrent-listings"},
+			B(L("big", 0)), B(L("big", 0)), B(L("big", 0)), A(0), A(0), A(0), A(0), B(L("big", 0)), A(0), A(0), B(K("u", "ok")), A(0)}, "half-open-concurrent-listings", false, nil},
 		// a follow-up page that fails in the closed state counts towards the trip rule
-		{small, script{Table: bigP2Fails}, []event{B(L("big", 0)), A(0), A(0), B(L("big", 0)), A(0), A(0), B(L("big", 0)), T(9), B(L("big", 1)), A(0)}, "failing-follow-up-pages-trip"},
+		{small, script{Table: bigP2Fails}, []event{B(L("big", 0)), A(0), A(0), B(L("big", 0)), A(0), A(0), B(L("big", 0)), T(9), B(L("big", 1)), A(0)}, "failing-follow-up-pages-trip", false, nil},
 		// nested groups, depth limit, unknown member type, a group containing itself
 		{google, script{Table: nested}, []event{B(L("top", 0)), A(0), A(0), B(L("top", 1)), A(0), A(0), A(0), A(0), A(0),
-			B(L("top", 2)), A(0), A(0), A(0), A(0), A(0), A(0), A(0), B(L("loop", 3)), A(0), A(0), A(0), A(0)}, "nested-groups"},
+			B(L("top", 2)), A(0), A(0), A(0), A(0), A(0), A(0), A(0), B(L("loop", 3)), A(0), A(0), A(0), A(0)}, "nested-groups", false, nil},
 		// error mapping of both operations; three "not found" answers trip the breaker like any failure
 		{google, script{Table: errs}, []event{B(L("e400", 0)), A(0), B(L("in", 0)), A(0), B(L("e429", 0)), A(0), B(K("u", "in", "missing", "out", "in")), A(0), A(0), A(0), A(0),
 			B(L("e403", 0)), A(0), B(L("e503", 0)), A(0), B(K("u", "in")), A(0), B(L("ebad", 0)), A(0), B(K("u", "e400")), A(0), B(K("u")),
-			B(K("u", "in", "e403", "in")), A(0), A(0), B(K("u", "ebad")), A(0), B(L("missing", 0)), A(0), B(L("missing", 0))}, "error-mapping"},
+			B(K("u", "in", "e403", "in")), A(0), A(0), B(K("u", "ebad")), A(0), B(L("missing", 0)), A(0), B(L("missing", 0))}, "error-mapping", false, nil},
 		// a nested group that cannot be listed (404, 503, rejected by the open breaker) fails the WHOLE listing with that error
 		{small, script{Table: []tableEnt{page("par", "", "", member{"x", 0}, member{"gone", 1}, member{"y", 0}),
 			page("par2", "", "", member{"x", 0}, member{"sick", 1}, member{"y", 0}), fails(request{0, "sick", ""}, 503)}},
-			[]event{B(L("par", 1)), A(0), A(0), B(L("par", 0)), A(0), B(L("par2", 1)), A(0), A(0), B(L("par2", 2)), T(9), B(L("par2", 1)), A(0), A(0), B(L("par", 0)), A(0)}, "nested-group-fails"},
+			[]event{B(L("par", 1)), A(0), A(0), B(L("par", 0)), A(0), B(L("par2", 1)), A(0), A(0), B(L("par2", 2)), T(9), B(L("par2", 1)), A(0), A(0), B(L("par", 0)), A(0)}, "nested-group-fails", false, nil},
 		// faults by arrival index: the same request answered differently the second time
 		{small, script{Faults: []faultEnt{{1, answer{Kind: aErr, Code: 500}}, {2, answer{Kind: aErr, Code: 503}}}, Table: big},
-			[]event{B(L("big", 0)), A(0), A(0), B(L("big", 0)), A(0), B(L("big", 0)), T(6), B(L("big", 0)), A(0), A(0)}, "faults-by-arrival"},
-		{small, script{}, nil, "empty"},
+			[]event{B(L("big", 0)), A(0), A(0), B(L("big", 0)), A(0), B(L("big", 0)), T(6), B(L("big", 0)), A(0), A(0)}, "faults-by-arrival", false, nil},
+		{small, script{}, nil, "empty", false, nil},
 	}
 }
 
@@ -865,7 +1049,7 @@ func main() {
 		seed int64
 	}
 	var jobs []job
-	for _, s := range corpus() {
+	for _, s := range append(corpus(), providerCorpus()...) {
 		s := s
 		jobs = append(jobs, job{idx: len(jobs), fix: &s})
 	}
@@ -881,7 +1065,7 @@ func main() {
 			defer wg.Done()
 			for j := range ch {
 				if j.fix != nil {
-					results[j.idx] = runScript(j.fix.p, j.fix.sc, j.fix.evs, j.fix.name)
+					results[j.idx] = runScript(j.fix.p, j.fix.sc, j.fix.evs, j.fix.name, j.fix.provider, j.fix.cache)
 				} else {
 					results[j.idx] = runRandom(c.NewRng(j.seed), "random")
 				}
